@@ -55,6 +55,13 @@ NOTES={
  "C16c":("C16",["C16"],""),
  "C19c":("C19",["C19"],""),
  "C20c":("C20",["C20"],""),
+ "C01d":("C01",["C01"],""),
+ "C03d":("C03",["C03","C05"],""),
+ "C08d":("C08",["C08"],"missed by the first version of C08 (no IPv4 tail with a part of 19+ digits); the tail menu now holds every wrap point (2^8, 2^16, 2^32, 2^63, 2^64, 19+ digits, leading zeros)"),
+ "C09d":("C09",["C09","C15"],"breaks the normalisation clause only for a parser built with WithReportValidationErrors: C15 caught it at once (reporting changes acceptance); C09, which used the default parser only, now also evaluates the normalisation clause on the reporting parser"),
+ "C15d":("C15",["C15"],""),
+ "C17d":("C17",["C17"],""),
+ "C18d":("C18",["C18","C01"],"missed by the first version of C18 (dot segments were only inserted with a trailing slash, i.e. never directly before '?' or '#'); end-of-path variants 'x/..', '.', '%2e' were added. C01 caught it unchanged"),
  "C20a":("C20",["C20"],"missed by the first version of C20 (only single-fragment repetition families); two-phase families P*n + Q*n over per-slot atom menus were added"),
 }
 for d in sorted(glob.glob('/verif/seeded/*/')):
